@@ -27,3 +27,49 @@ Proof.
   rewrite !R. apply (spec_stateless_app E get sts H).
 Qed.
 Print Assumptions C11_concat.
+
+(* the whole program over any list of inputs, stateless pipelines (set, split, filter, select) *)
+From Jawk Require Import Base F64 Json Reader JsonParser Ctx Printer Fn Expr Chain ExprParser Go PipelineSpec OrderProofs SorterProofs ChainProofs GoProofs BuildProofs FilesProofs LocalFilesProofs.
+
+(* the rows written over any list of inputs are the concatenation, value by value, of the rows each value gives alone (the value's context carries its position; nothing else of the history enters) *)
+Theorem C11_program_local_files :
+  forall (cf : cfg) (ins : list (option str * list ev)) (b : bool) (p : printer)
+      (sts : list stage) (hdr : list byte),
+    c_on_error cf = OnIgnore ->
+    Forall (fun i : option str * list ev => Forall (fun e : ev => e <> EErr) (snd i)) ins ->
+    build_pipeline cf = Some (p, sts) ->
+    start_output p (titles expr sts []) (c_rowsep cf) = Some hdr ->
+    (forall t : N, c_take cf = Some t -> (c_skip cf + t <= 18446744073709551615)%N) ->
+    forallb (stateless expr) sts = true ->
+    g_events (go cf ins b) =
+    match hdr with
+    | [] => []
+    | _ :: _ => [OOut hdr]
+    end ++
+    concat
+      (map (fun c : ctx => emit cf p (length (titles expr sts [])) (spec expr get sts [c]))
+         (fst (ctxs_of_inputs cf ins 0))).
+Proof. exact program_local_files. Qed.
+Print Assumptions C11_program_local_files.
+
+(* splitting the list of inputs splits the rows: out(A ++ B) = out(A) ++ out(B), B numbered from where A stopped *)
+Theorem C11_program_concat_files :
+  forall (cf : cfg) (insA insB : list (option str * list ev)) (b : bool) (p : printer)
+      (sts : list stage) (hdr : list byte),
+    c_on_error cf = OnIgnore ->
+    Forall (fun i : option str * list ev => Forall (fun e : ev => e <> EErr) (snd i)) (insA ++ insB) ->
+    build_pipeline cf = Some (p, sts) ->
+    start_output p (titles expr sts []) (c_rowsep cf) = Some hdr ->
+    (forall t : N, c_take cf = Some t -> (c_skip cf + t <= 18446744073709551615)%N) ->
+    forallb (stateless expr) sts = true ->
+    g_events (go cf (insA ++ insB) b) =
+    match hdr with
+    | [] => []
+    | _ :: _ => [OOut hdr]
+    end ++
+    emit cf p (length (titles expr sts [])) (spec expr get sts (fst (ctxs_of_inputs cf insA 0))) ++
+    emit cf p (length (titles expr sts []))
+      (spec expr get sts
+         (fst (ctxs_of_inputs cf insB (N.of_nat (length (fst (ctxs_of_inputs cf insA 0))))))).
+Proof. exact program_concat_files. Qed.
+Print Assumptions C11_program_concat_files.
